@@ -16,7 +16,7 @@ RULE = (
 )
 ASSUMPTIONS = ["/proc/self/fd, threading.enumerate(), psutil children and /dev/shm are the observers",
                "a leak must accumulate: equal excess after every repetition is attributed to first-use initialisation"]
-KINDS = ["plain_clean", "plain_with", "plain_nowait", "plain_kill", "plain_broken", "plain_gc", "plain_idle", "plain_nested",
+KINDS = ["plain_broken_bigargs", "plain_clean", "plain_with", "plain_nowait", "plain_kill", "plain_broken", "plain_gc", "plain_idle", "plain_nested",
          "reusable_clean", "reusable_resize", "reusable_broken", "reusable_kill", "reusable_idle"]
 
 
